@@ -503,9 +503,13 @@ func c28PDeepAny(depth int, kv bool) []byte {
 
 // --- the classes -----------------------------------------------------------------------
 
-func c28Depths(thorough bool) []int {
-	if thorough {
+// nesting depths; the extreme ones only in the thorough tier at the base combination
+func c28Depths(thorough, full bool) []int {
+	switch {
+	case thorough && full:
 		return []int{64, 1000, 20000, 1000000}
+	case thorough:
+		return []int{64, 1000, 20000}
 	}
 	return []int{64, 3000}
 }
@@ -630,7 +634,7 @@ func c28DocClass(fam, enc, shape string, thorough, full bool, add func(enc, labe
 			}
 		}
 	case "deep":
-		for _, d := range c28Depths(thorough) {
+		for _, d := range c28Depths(thorough, full) {
 			arr := c28Raw{JSON: c28PCat(c28Repeat("[", d), c28Repeat("]", d)), Msgp: append(c28Repeat("\x91", d), 0xc0)}
 			mp := c28Raw{JSON: c28PCat(c28Repeat(`{"k":`, d), []byte("1"), c28Repeat("}", d)), Msgp: append(c28Repeat("\x81\xa1k", d), 0x01)}
 			raw(fmt.Sprintf("top-arrays-%d", d), c28Encode(enc, arr))
@@ -858,7 +862,10 @@ func c28OTLPClass(fam, enc, shape string, thorough, full bool, add func(enc, lab
 	case "deep":
 		depths := []int{50, 101, 3000}
 		if thorough {
-			depths = []int{50, 98, 101, 200, 5000, 20000, 200000}
+			depths = []int{50, 98, 101, 200, 5000}
+			if full {
+				depths = append(depths, 20000, 200000)
+			}
 		}
 		for _, d := range depths {
 			if enc == "protobuf" {
